@@ -125,7 +125,8 @@ type Event struct {
 
 type Disk struct {
 	base   *Image
-	delta  map[uint64][]byte
+	delta  [][]byte // indexed by address (a slice: map accesses carry race-detector hooks even in norace code)
+	dirty  []uint64
 	Log    []Event
 	Record bool
 	Closed bool
@@ -137,7 +138,7 @@ type Disk struct {
 }
 
 func New(base *Image) *Disk {
-	return &Disk{base: base, delta: map[uint64][]byte{}, Record: true}
+	return &Disk{base: base, delta: make([][]byte, base.Size), Record: true}
 }
 
 func (d *Disk) Size() uint64 { return d.base.Size }
@@ -155,8 +156,8 @@ func (d *Disk) read(a uint64) []byte {
 		panic(fmt.Sprintf("vdisk: read of block %d beyond disk size %d", a, d.base.Size))
 	}
 	d.NReads++
-	src, ok := d.delta[a]
-	if !ok {
+	src := d.delta[a]
+	if src == nil {
 		src = d.base.Get(a)
 		if d.TrackReads {
 			if d.FirstReads == nil {
@@ -193,6 +194,9 @@ func (d *Disk) write(a uint64, v []byte) {
 	d.NWrites++
 	c := make([]byte, BlockSize)
 	copy(c, v)
+	if d.delta[a] == nil {
+		d.dirty = append(d.dirty, a)
+	}
 	d.delta[a] = c
 	if d.Record {
 		d.Log = append(d.Log, Event{Kind: EvWrite, Addr: a, Blk: c, Tid: vrt.CurID()})
@@ -225,9 +229,9 @@ func (d *Disk) Mark(kind string, op, arg int) {
 //
 //go:norace
 func (d *Disk) Snapshot() *Image {
-	m := make(map[uint64][]byte, len(d.delta))
-	for a, b := range d.delta {
-		m[a] = b
+	m := make(map[uint64][]byte, len(d.dirty))
+	for _, a := range d.dirty {
+		m[a] = d.delta[a]
 	}
 	return d.base.With(m)
 }
@@ -236,7 +240,7 @@ func (d *Disk) Snapshot() *Image {
 //
 //go:norace
 func (d *Disk) Peek(a uint64) []byte {
-	if b, ok := d.delta[a]; ok {
+	if b := d.delta[a]; b != nil {
 		return b
 	}
 	return d.base.Get(a)
